@@ -399,6 +399,75 @@ def direct_moments(ty, dim, L, pts, w, cs, f, exact=False):
     return rows, exp, scale
 
 
+def solid_indep_np(l: int, m: int, x, y, z):
+    """Vectorised form of solid_indep (same closed form), for large grids."""
+    am = abs(m)
+    re, im = np.ones_like(x), np.zeros_like(x)
+    for _ in range(am):
+        re, im = re * x - im * y, re * y + im * x
+    a = re if m >= 0 else im
+    r2 = x * x + y * y + z * z
+    f = math.factorial
+    s = np.zeros_like(x)
+    for k in range((l - am) // 2 + 1):
+        c = float(Fraction((-1) ** k * f(2 * l - 2 * k), 2 ** l * f(k) * f(l - k) * f(l - am - 2 * k)))
+        zp = np.ones_like(x)
+        for _ in range(l - am - 2 * k):
+            zp = zp * z
+        rp = np.ones_like(x)
+        for _ in range(k):
+            rp = rp * r2
+        s = s + c * rp * zp
+    n = 1.0 if m == 0 else math.sqrt(2.0 * f(l - am) / f(l + am))
+    return n * a * s
+
+
+def direct_moments_np(ty, dim, L, P, w, C, f):
+    """Direct quadrature over the documented rows for large grids: powers by repeated multiplication, one row at a time
+    (never a rows x points x dim array), float64 pairwise sums.  Returns (rows, expected[rows, centres], scale[rows])."""
+    rows = spec_rows(ty, dim, L)
+    wf = np.asarray(w, dtype=float) * np.asarray(f, dtype=float)
+    exp = np.zeros((len(rows), len(C)))
+    scale = np.zeros(len(rows))
+    for ic, c in enumerate(C):
+        d = np.asarray(P, dtype=float) - np.asarray(c, dtype=float)
+        if ty == "cartesian":
+            pw = [[np.ones(len(d))] for _ in range(dim)]
+            for j in range(dim):
+                for _ in range(L):
+                    pw[j].append(pw[j][-1] * d[:, j])
+        else:
+            r = np.sqrt(np.sum(d * d, axis=1))
+            rp = [np.ones(len(d))]
+            for _ in range(L):
+                rp.append(rp[-1] * r)
+        cache = {}
+        for ir, row in enumerate(rows):
+            if ty == "cartesian":
+                b = np.ones(len(d))
+                for j, e in enumerate(row):
+                    b = b * pw[j][e]
+            elif ty == "radial":
+                b = rp[row[0]]
+            else:
+                l, m = row[-2], row[-1]
+                if (l, m) not in cache:
+                    cache[(l, m)] = solid_indep_np(l, m, d[:, 0], d[:, 1], d[:, 2])
+                b = cache[(l, m)] if ty == "pure" else rp[row[0]] * cache[(l, m)]
+            t = wf * b
+            exp[ir, ic] = float(np.sum(t))
+            scale[ir] += float(np.sum(np.abs(t)))
+    return rows, exp, scale
+
+
+def next_prime(n: int) -> int:
+    n = max(n, 2)
+    while True:
+        if all(n % q for q in range(2, int(n ** 0.5) + 1)):
+            return n
+        n += 1
+
+
 # ====================================================================== implementation wrappers / Coq encodings
 def impl_orders(L, ty, dim):
     from grid.utils import generate_orders_horton_order
@@ -874,6 +943,10 @@ def run(ctx: Ctx):
             return UniformGrid(np.array([rng.randint(-4, 4) / 4.0 for _ in range(dim)]), axes, np.array(shape))
         if kind == "AngularGrid":
             return AngularGrid(degree=rng.choice([3, 5, 7]))
+        if kind == "OneDGrid":
+            n = rng.randint(2, 7)
+            return OneDGrid(np.array(sorted(rng.sample(range(-12, 13), n))) / 4.0,
+                            np.array([rng.choice([0.25, 0.5, 0.75, 1.25, 1.5]) for _ in range(n)]))
         raise ValueError(kind)
 
     def hist_moments(g, hist, cur, ty, L, cs, fkind, cls, tag):
@@ -919,17 +992,25 @@ def run(ctx: Ctx):
         pool = [t for t in (TYPES if dim == 3 else ["cartesian", "radial"]) if t != ty]
         return rng.choice(pool)
 
+    # OneDGrid keeps its points as a 1-D array of shape (N,)
+    og = OneDGrid(np.array([-0.75, -0.25, 0.5, 1.0]), np.array([0.5, 0.25, 0.75, 0.5]))
+    try:
+        og.moments(1, np.array([[0.25]]), np.ones(4), "cartesian")
+        og_err = None
+    except Exception as e:  # noqa: BLE001
+        og_err = type(e).__name__
+    hist_classes = ["Grid", "UniformGrid", "AngularGrid"] + (["OneDGrid"] if og_err is None else [])
     nhist = 40 if quick else 400
     templates = ["points-same", "points-other", "weights", "funcvals", "interleaved", "shell"]
     hows = ["shift", "scale", "permute", "tiny"]
     for k in range(nhist):
         tpl = templates[k % len(templates)]
-        cls = ["Grid", "UniformGrid", "AngularGrid"][(k // len(templates)) % 3] if tpl != "shell" else "AngularGrid"
-        dim = 3 if cls == "AngularGrid" else [3, 2, 1, 3][(k // 18) % 4]
+        cls = hist_classes[(k // len(templates)) % len(hist_classes)] if tpl != "shell" else "AngularGrid"
+        dim = 3 if cls == "AngularGrid" else 1 if cls == "OneDGrid" else [3, 2, 1, 3][(k // 18) % 4]
         if cls == "UniformGrid" and dim == 1:
             dim = 2  # UniformGrid exists in 2-D and 3-D only
         g = make_grid(cls, dim)
-        cur = [np.asarray(g.points, dtype=float).tolist(), np.asarray(g.weights, dtype=float).tolist()]
+        cur = [np.asarray(g.points, dtype=float).reshape(len(g.weights), -1).tolist(), np.asarray(g.weights, dtype=float).tolist()]
         hist = [{"op": "points", "points": cur[0]}, {"op": "weights", "weights": cur[1]}]
         ty = rng.choice(TYPES if dim == 3 else ["cartesian", "radial"])
         L = rng.randint(1, 4) if ty != "pure-radial" else rng.randint(1, 3)
@@ -941,7 +1022,7 @@ def run(ctx: Ctx):
 
         def set_points(how):
             a = new_points(cur[0], how)
-            g.points = a
+            g.points = a[:, 0] if cls == "OneDGrid" else a
             cur[0] = a.tolist()
             hist.append({"op": "points", "how": how, "points": cur[0]})
 
@@ -993,13 +1074,6 @@ def run(ctx: Ctx):
                 cur[1] = b.tolist()
                 hist.append({"op": "weights", "how": f"shell r={r}", "weights": cur[1]})
                 hist_moments(g, hist, cur, ty, L, cs, fk, cls, tag)
-    # OneDGrid keeps its points as a 1-D array
-    og = OneDGrid(np.array([-0.75, -0.25, 0.5, 1.0]), np.array([0.5, 0.25, 0.75, 0.5]))
-    try:
-        og.moments(1, np.array([[0.25]]), np.ones(4), "cartesian")
-        og_err = None
-    except Exception as e:  # noqa: BLE001
-        og_err = type(e).__name__
     ctx.case(("hist", "OneDGrid"))
     if og_err is not None:
         emit("entry_is_quadrature_cartesian", "OneDGrid([-0.75,-0.25,0.5,1.0],[0.5,0.25,0.75,0.5]).moments(1, [[0.25]], ones(4), 'cartesian')", og_err,
@@ -1007,7 +1081,61 @@ def run(ctx: Ctx):
              {"reproduce": "from grid.basegrid import OneDGrid; OneDGrid(np.array([-0.75,-0.25,0.5,1.0]), np.array([0.5,0.25,0.75,0.5])).moments(1, np.array([[0.25]]), np.ones(4), 'cartesian')",
               "expected": "rows [0],[1]: sum w f (x-0.25)^n = [2.0, -0.0625]"})
     else:
-        ctx.notes.append("OneDGrid.moments runs; add OneDGrid to the history classes")
+        ctx.count("history:OneDGrid enabled")
+
+    # ---------------------------------------------------------------- 4c. large grids: "for every grid" includes grids of 1e3..1e6
+    #      points, where size-dependent code paths (blocking, chunking, batching) may be taken.  Sizes are primes (not
+    #      divisible by any block count), rows x dim x points spans 2e5 .. 1.2e7 (3e7 thorough), function values are of order
+    #      one at every point, plus one call whose function is the indicator of the last grid point.  Oracle: direct_moments_np.
+    cap = 1.2e7 if quick else 3.0e7
+    nlarge = 10 if quick else 40
+    for k in range(nlarge):
+        ty = ["cartesian", "cartesian", "radial", "cartesian", "pure", "cartesian", "pure-radial"][k % 7]
+        dim = 3 if ty in ("pure", "pure-radial") else [3, 2, 1][(k // 7 + k) % 3]
+        L = {"cartesian": [8, 6, 9, 4, 2][k % 5], "radial": 6, "pure": rng.randint(3, 6), "pure-radial": rng.randint(2, 4)}[ty]
+        nrows = len(spec_rows(ty, dim, L))
+        width = dim if ty == "cartesian" else 1
+        elems = math.exp(rng.uniform(math.log(2e5), math.log(cap))) if k >= 4 else cap * [0.9, 0.6, 0.45, 0.8][k]
+        npt = next_prime(int(min(max(elems / (nrows * width), 1000), 1.2e6)))
+        ncs = 1 + k % 2
+        seed = rng.randrange(2 ** 31)
+        gen_code = ("r = np.random.default_rng(seed); P = r.uniform(-1.5, 1.5, (npt, dim)); w = r.uniform(0.2, 1.0, npt) / npt; "
+                    "f = r.uniform(0.5, 2.0, npt) * r.choice([-1.0, 1.0], npt); C = r.uniform(-0.5, 0.5, (ncs, dim))")
+        r_ = np.random.default_rng(seed)
+        P = r_.uniform(-1.5, 1.5, (npt, dim))
+        w = r_.uniform(0.2, 1.0, npt) / npt
+        f = r_.uniform(0.5, 2.0, npt) * r_.choice([-1.0, 1.0], npt)
+        C = r_.uniform(-0.5, 0.5, (ncs, dim))
+        onehot = np.zeros(npt)
+        onehot[-1] = 1.0
+        for label, fv in (("random", f), ("indicator-of-last-point", onehot)):
+            key = f"moments-large:{ty}:dim={dim}:L={L}:npt={npt}:centres={ncs}:{label}:seed={seed}"
+            rp = {"type": ty, "orders": L, "dim": dim, "npt": npt, "ncs": ncs, "seed": seed, "func": label,
+                  "reproduce": gen_code + ("; f = np.zeros(npt); f[-1] = 1.0" if label != "random" else "")
+                  + "; Grid(P, w).moments(orders, C, f, type)  # compare with sum_i w_i f_i basis_row(P_i - C_c)"}
+            ctx.case(("large", ty, dim, L, npt, ncs, label))
+            ctx.count(f"large:{ty}:{dim}D")
+            try:
+                m, o = BaseGrid(P, w).moments(L, C, fv, ty, return_orders=True)
+                m = np.asarray(m, dtype=float)
+            except Exception as e:  # noqa: BLE001
+                if not (ty == "cartesian" and dim == 1 and ("cartesian", 1) in first_bad):
+                    report("entry_is_quadrature_" + ty.replace("-", "_"), key, type(e).__name__,
+                           f"Grid.moments({L}, type={ty}) on a {dim}-D grid of {npt} points raises {type(e).__name__}", rp)
+                continue
+            rows, exp, scale = direct_moments_np(ty, dim, L, P, w, C, fv)
+            if m.shape != exp.shape or np.asarray(o).reshape(len(rows), -1).tolist() != rows:
+                report("entry_is_quadrature_" + ty.replace("-", "_"), key, list(m.shape),
+                       f"Grid.moments({L}, type={ty}) on {npt} points: shape {m.shape} / orders differ from the documented rows", rp)
+                continue
+            err = np.abs(m - exp) - (TOL * scale[:, None] + 1e-15)
+            if np.any(err > 0):
+                ir, ic = np.unravel_index(int(np.argmax(err)), err.shape)
+                rp2 = dict(rp, row=int(ir), center=int(ic), order=rows[ir], expected=float(exp[ir, ic]), got=float(m[ir, ic]))
+                report("entry_is_quadrature_" + ty.replace("-", "_"), key, [int(ir), int(ic), float(m[ir, ic]), float(exp[ir, ic])],
+                       f"Grid.moments({L}, type={ty}, {dim}-D) on a grid of {npt} points, function = {label}: entry [row {ir} = order {rows[ir]}, "
+                       f"centre {ic}] is {float(m[ir, ic])!r}, direct quadrature gives {float(exp[ir, ic])!r}", rp2)
+            del m, exp
 
     # ---------------------------------------------------------------- 5. dipole helper
     from grid.basegrid import Grid
@@ -1061,6 +1189,31 @@ def run(ctx: Ctx):
         cases.append(f"qopt_close {q_bigq(Fraction(TOL * scale))} (qdip {coq_qrows(pts)} {coq_qlist(w)} {coq_qlist(rho)} {coq_qrows(coords)} "
                      f"{coq_qlist(charges)} {coq_qlist(masses)}) ({e})")
         meta.append((k, charges, dok))
+    for npt in ([360007] if quick else [360007, 900001]):
+        seed = rng.randrange(2 ** 31)
+        r_ = np.random.default_rng(seed)
+        P = r_.uniform(-2, 2, (npt, 3))
+        w = r_.uniform(0.2, 1.0, npt) / npt
+        rho = r_.uniform(0.5, 2.0, npt)
+        coords = np.array([[0.0, 0.0, -0.5], [0.25, 0.5, 0.75]])
+        charges = np.array([atoms[0], atoms[-1]])
+        masses = np.array([float(gu.isotopic_masses[q]) for q in charges])
+        com = (coords * masses[:, None]).sum(axis=0) / masses.sum()
+        exp = (charges[:, None] * (coords - com)).sum(axis=0) - ((P - com) * (rho * w)[:, None]).sum(axis=0)
+        key = f"dipole-large:npt={npt}:seed={seed}"
+        rp = {"npt": npt, "seed": seed, "coords": coords.tolist(), "charges": charges.tolist(),
+              "reproduce": "r = np.random.default_rng(seed); P = r.uniform(-2, 2, (npt, 3)); w = r.uniform(0.2, 1.0, npt) / npt; rho = r.uniform(0.5, 2.0, npt); "
+                           "dipole_moment_of_molecule(Grid(P, w), rho, np.array(coords), np.array(charges))"}
+        ctx.case(("dipole-large", npt))
+        ctx.count("dipole:large")
+        try:
+            d = np.asarray(gu.dipole_moment_of_molecule(Grid(P, w), rho, coords, charges), dtype=float).ravel()
+        except Exception as e:  # noqa: BLE001
+            report("dipole_spec", key, type(e).__name__, f"dipole_moment_of_molecule on {npt} points raises {type(e).__name__}", rp)
+            continue
+        if d.shape != (3,) or np.any(np.abs(d - exp) > TOL * 50):
+            report("dipole_spec", key, d.tolist(), f"dipole_moment_of_molecule on a grid of {npt} points = {d.tolist()}, "
+                   f"nuclear minus electronic first moments about the centre of mass = {exp.tolist()}", rp)
     for i in coq_bad("C14_dip", QHDR, cases, shard=20):
         if meta[i][2]:
             report("corr_dipole", f"dipole-model:#{meta[i][0]}", None, f"Coq model of the dipole helper and the implementation disagree on case #{meta[i][0]}", found_input=False)
@@ -1080,7 +1233,9 @@ def run(ctx: Ctx):
                        "API (AttributeError on .ndim) and are not part of the domain; histories on ONE grid object (Grid 1-3 D, UniformGrid, "
                        "AngularGrid): moments -> reassign points (shift, scale, permutation, 1e-6 perturbation) or weights -> moments with the "
                        "same and with different type/order/centres, consecutive calls with different function values, interleaved types, "
-                       "the AtomGrid.get_shell_grid pattern; every call judged by direct quadrature over the arrays assigned last" % (LMAX_ORD, 6 if quick else 9))
+                       "the AtomGrid.get_shell_grid pattern; every call judged by direct quadrature over the arrays assigned last; large grids "
+                       "(prime sizes 1e3..1.2e6, rows*dim*points up to 1.2e7 quick / 3e7 thorough, all types, function of order one at every "
+                       "point and the indicator of the last point; dipole on 360007 points) against a vectorised row-by-row direct quadrature" % (LMAX_ORD, 6 if quick else 9))
     ctx.trusted += [
         "py2coq/int translator OrdersTranslator (tools/props/c14.py) for generate_orders_horton_order; validated by exact correspondence on all orders 0..%d" % LMAX_ORD,
         "NumPy semantics assumed by the model vocabulary: np.array of int rows (ragged -> error, [] -> shape (0,)), np.vstack row stacking with equal widths, np.arange, np.ravel; a dtype attribute missing from the installed NumPy raises",
